@@ -1455,7 +1455,24 @@ class Dosini(object):
         flowir[FlowIR.FieldPlatforms] = sorted(set(flowir[FlowIR.FieldEnvironments].keys())\
             .union(list(flowir[FlowIR.FieldVariables].keys())))
 
-        return experiment.model.frontends.flowir.FlowIR.compress_flowir(flowir)
+        # VV: compress_flowir() discards empty containers but an explicitly empty list (e.g. `restart-hook-on =`)
+        #     is information: it overrides the default value of the option and whatever a blueprint defines
+        explicitly_empty = []
+        for comp in flowir.get(FlowIR.FieldComponents, []):
+            for option in ['restartHookOn', 'shutdownOn']:
+                if comp.get('workflowAttributes', {}).get(option) == []:
+                    explicitly_empty.append((comp['stage'], comp['name'], option))
+
+        flowir = experiment.model.frontends.flowir.FlowIR.compress_flowir(flowir)
+
+        for comp in flowir.get(FlowIR.FieldComponents, []):
+            for option in ['restartHookOn', 'shutdownOn']:
+                if (comp['stage'], comp['name'], option) in explicitly_empty:
+                    if 'workflowAttributes' not in comp:
+                        comp['workflowAttributes'] = {}
+                    comp['workflowAttributes'][option] = []
+
+        return flowir
 
     @classmethod
     def dump(cls, flowir, output_dir, update_existing=True, is_instance=False):
